@@ -22,6 +22,8 @@ import Verif.Model.Renew
   hrenew / hrekey: the HTTP handlers on the request as received (see `hrenew`, `hrekey` below)
       output: created | badrequest | refuse | crash
   fact name=<n>   output: table:<the Lean table of that name (Model/Renew.lean section 9), items joined by ','>
+  conv …  claims conversion ca.json <-> linkedca for every provisioner type (see `conv`)
+  srv …   the CA process surface: TLS handshake + handlers (see `srv`)
   mig …   renewal flags through configuration, migration to the admin database, restart (see `mig`)
   unissued …   (the template was not issuable; nothing to renew)  output: not-issued
 -/
@@ -279,6 +281,54 @@ def hrekey (kv : List (String × String)) : Option String := do
   pure (apiS (handleRekey current env i dummyCert
     ⟨(← b "peer"), (← b "body"), (← b "csr"), (← b "sig"), [1]⟩))
 
+/-- conv type=<T> dir=c2l|roundtrip|l2c pc=nil|<d><a>   output: flags=nil|<d><a>
+    (the conversion of the renewal flags is the same function for every provisioner type) -/
+def conv (kv : List (String × String)) : Option String := do
+  let tri : Char → Option (Option Bool) := fun c =>
+    if c == '-' then some none else if c == '0' then some (some false) else if c == '1' then some (some true) else none
+  let pcS ← lookup kv "pc"
+  let pc : Option RFlags ← if pcS = "nil" then pure none else
+    match pcS.toList with
+    | [d, a] => do pure (some ⟨(← tri d), (← tri a)⟩)
+    | _ => none
+  let g : GlobalFlags := ⟨false, false⟩
+  let b := fun (x : Bool) => if x then "1" else "0"
+  let o := fun (x : Option Bool) => match x with | none => "-" | some y => b y
+  match (← lookup kv "dir") with
+  | "c2l" =>
+    pure (match claimsToLinkedca current g pc with | none => "flags=nil" | some (d, a) => s!"flags={b d}{b a}")
+  | "roundtrip" =>
+    pure (match migrateClaims current g pc with | none => "flags=nil" | some c => s!"flags={o c.disableRenewal}{o c.allowAfterExpiry}")
+  | "l2c" =>
+    let l : Option (Bool × Bool) := pc.map fun c => (c.disableRenewal.getD false, c.allowAfterExpiry.getD false)
+    pure (match claimsToCertificates l with | none => "flags=nil" | some c => s!"flags={o c.disableRenewal}{o c.allowAfterExpiry}")
+  | _ => none
+
+/-- srv op=renew|rekey <gate fields> present=none|cert:<chainOK><nyv><exp> auth=x<hex> tok=<six bits>|-
+    output: created | badrequest | refuse | crash | tlsreject -/
+def srv (kv : List (String × String)) : Option String := do
+  let i ← gateIn? kv
+  let pres ← lookup kv "present"
+  let p : Presented ← if pres = "none" then pure .nothing else
+    match pres.splitOn ":" with
+    | ["cert", b] =>
+      match b.toList.map fun c => c == '1' with
+      | [a, n, e] => pure (.cert a n e)
+      | _ => none
+    | _ => none
+  let auth ← str? (← lookup kv "auth")
+  let bits ← lookup kv "tok"
+  let tc : Bool × Bool × Bool × Bool × Bool × Bool ←
+    if bits = "-" then pure (false, false, false, false, false, false) else
+    match bits.toList.map fun c => c == '1' with
+    | [a, b, c, d, e, f] => pure (a, b, c, d, e, f)
+    | _ => none
+  let r ← match (← lookup kv "op") with
+    | "renew" => pure (serveRenew current dummyEnv i dummyCert p auth (fun _ => tc))
+    | "rekey" => pure (serveRekey current dummyEnv i dummyCert p true true true [1])
+    | _ => none
+  pure (match r with | none => "tlsreject" | some a => apiS a)
+
 /-- mig mode=coded|spec phase=config|migrated|restarted gd= ga= pc=nil|<d><a> exp=0|1   (flags: - 0 1) -/
 def mig (kv : List (String × String)) : Option String := do
   let tri : Char → Option (Option Bool) := fun c =>
@@ -328,6 +378,8 @@ def eval (line : String) : Option String :=
       | some n => (factTable n).map fun t => "table:" ++ listS t
       | none => none
     | "mig" => mig kv
+    | "srv" => srv kv
+    | "conv" => conv kv
     | "hrenew" => hrenew kv
     | "hrekey" => hrekey kv
     | "fidspec" =>
